@@ -76,6 +76,40 @@ def level_cases(rng, m, n, levels):
             t = json.dumps(s)
             out.append(case({"kind": "json", "text": t}, t, [(m, n)],
                             [{"text": "{" + ",".join('"k%d":1' % i for i in range(k)) + "}", "ks": [k]} for k in ks], mayfail=0))
+        elif lv == "properties_req" and n >= 0:
+            # declared properties (r required, o optional) followed by additional ones: the count covers all members
+            r = rng.randint(1, 3)
+            o = rng.choice([0, 0, 1])
+            if n < r:
+                continue
+            props = {f"r{i}": {"const": 1} for i in range(r)}
+            props.update({f"o{i}": {"const": 1} for i in range(o)})
+            s = {"type": "object", "properties": props, "required": [f"r{i}" for i in range(r)],
+                 "additionalProperties": {"const": 1}, "minProperties": m, "maxProperties": n}
+            t = json.dumps(s)
+            lits = []
+            for k in sorted(set(ks + [r, r + 1, n, n + 1])):
+                if k < r:
+                    continue
+                for use_o in ([0, 1] if o and k > r else [0]):
+                    names = [f"r{i}" for i in range(r)] + (["o0"] if use_o else [])
+                    names += [f"x{i}" for i in range(k - len(names))]
+                    lits.append({"text": "{" + ",".join('"%s":1' % nm for nm in names) + "}", "ks": [k]})
+            # optional declared keys + a property count is documented as unsupported (compile error)
+            out.append(case({"kind": "json", "text": t}, t, [(max(m, r), n)], lits, mayfail=1 if o else 0))
+        elif lv == "properties_pat" and n >= 0:
+            s = {"type": "object", "patternProperties": {"^k[0-9]+$": {"const": 1}}, "additionalProperties": False,
+                 "minProperties": m, "maxProperties": n}
+            t = json.dumps(s)
+            out.append(case({"kind": "json", "text": t}, t, [(m, n)],
+                            [{"text": "{" + ",".join('"k%d":1' % i for i in range(k)) + "}", "ks": [k]} for k in ks], mayfail=0))
+        elif lv == "items_prefix" and n >= 0:
+            pfx = rng.randint(1, 3)
+            s = {"type": "array", "prefixItems": [{"const": 0}] * pfx, "items": {"enum": [1, 22]}, "minItems": m, "maxItems": n}
+            t = json.dumps(s)
+            out.append(case({"kind": "json", "text": t}, t, [(m, n)],
+                            [{"text": "[" + ",".join(["0"] * min(k, pfx) + [rng.choice(["1", "22"]) for _ in range(k - pfx)]) + "]",
+                              "ks": [k]} for k in sorted(set(ks + [pfx, pfx + 1]))]))
     return out
 
 
@@ -112,7 +146,8 @@ def op_cases(rng):
     return out
 
 
-ALL_LEVELS = ["rule", "rule_group", "rule_nested", "terminal", "regex", "regex_top", "items", "items_min", "length", "properties"]
+ALL_LEVELS = ["rule", "rule_group", "rule_nested", "terminal", "regex", "regex_top", "items", "items_min", "length", "properties",
+              "properties_req", "properties_pat", "items_prefix"]
 
 
 def build(rng, N, pair_count, levels=ALL_LEVELS, stride=1):
